@@ -499,7 +499,15 @@ def _record_assembly(ctx: Ctx) -> None:
                     and src(s.targets[0]) == "row" and isinstance(
                         s.value, ast.Tuple) and len(s.value.elts) == 3]
             if len(rows) == 1:
-                e = rows[0].value.elts
+                e = list(rows[0].value.elts)
+                if isinstance(e[0], ast.Name):
+                    # the bin-bound dictionary hoisted into a local
+                    defs = [s_ for s_ in ast.walk(fi.node) if isinstance(
+                        s_, (ast.Assign, ast.AnnAssign)) and s_.value is not
+                        None and src(s_.targets[0] if isinstance(
+                            s_, ast.Assign) else s_.target) == e[0].id]
+                    if len(defs) == 1:
+                        e[0] = defs[0].value
                 ok_row = isinstance(e[0], ast.DictComp) and "obounds" in \
                     src(e[2]) and kw.get("bin_bounds") == "row[0]" and \
                     kw.get("objective_bounds") == "row[2]"
